@@ -105,6 +105,15 @@ Proof. apply modify_model_idx. intros x. split; reflexivity. Qed.
 Lemma add_reference_origin_frame m p e : stab (RegFrame m) (add_reference_origin m p e).
 Proof. apply modify_model_idx. intros x. split; reflexivity. Qed.
 
+Lemma in_insert_at {A} (l : list A) k x y : In y (insert_at l k x) -> In y l \/ y = x.
+Proof.
+  revert k. induction l as [|z l IH]; intros [|k]; cbn; intros H.
+  - destruct H as [->|[]]; auto.
+  - destruct H as [->|[]]; auto.
+  - destruct H as [->|H]; auto.
+  - destruct H as [->|H]; auto. apply IH in H as [H|H]; auto.
+Qed.
+
 Section Create.
 Variable T : tables.
 Variable LATEST : N.
@@ -203,6 +212,7 @@ Lemma make_unique_spec i m pp w r w' :
     NameOf orig name /\ FreeName w m (pp ++ [47] ++ name) /\
     ((name = orig /\ w' = w) \/
      exists s rest sn, n_content n = CElem s :: rest /\ w_nodes w s = Some sn /\
+       (exists k, 1 <= k /\ name = suffixed orig k) /\
        w' = mkWorld (upd (w_nodes w) s (set_content sn [CData (DString name)])) (w_next w) (w_files w) (w_models w)).
 Proof.
   unfold make_unique_item_name. intros H.
@@ -229,7 +239,9 @@ Proof.
     destruct (1 <? counter) eqn:Hcnt.
     + destruct (item_name_some_content _ _ _ _ orig E eq_refl) as (s & rest & Hcont).
       rewrite Hcont in E1. apply modify_node_inv in E1 as (sn & Hsn & _ & ->).
-      right. exists s, rest, sn. auto.
+      right. exists s, rest, sn. repeat (split; auto).
+      apply N.ltb_lt in Hcnt. destruct Hc as [(-> & _) | (Hlt & ->)]; [lia|].
+      exists (counter - 1). split; [lia | reflexivity].
     + apply wret_inv in E1 as (_ & ->). left. split; auto.
       destruct Hc as [(_ & ->) | (Hlt & _)]; auto. apply N.ltb_ge in Hcnt. lia.
   - exfalso. destruct (1 <? counter).
@@ -238,6 +250,263 @@ Proof.
       * apply modify_node_inv in E1 as (? & _ & [=] & _).
       * apply wret_inv in E1 as ([=] & _).
     + apply wret_inv in E1 as ([=] & _).
+Qed.
+
+(* ------------------------------------------------------------------ create_copied_sub_element_inner *)
+(* what a copy into `self` (an element of model m) may touch: nothing allocated before except `self`, no file, and of
+   the models only the two index maps of m *)
+Definition CopyFrame (self : id) (m : N) (w w' : world) : Prop :=
+  w_next w <= w_next w' /\ (forall i, i < w_next w -> i <> self -> w_nodes w' i = w_nodes w i) /\
+  w_files w' = w_files w /\ IdxOnly m (w_models w) (w_models w').
+
+(* the fresh part: the final world w' against the world w1 right after deep_copy.  The copy c got its parent link;
+   if it had to be renamed, the text of its SHORT-NAME (its first sub-element s) is `name`; nothing else differs *)
+Definition CopyRel (w1 w' : world) (self c : id) : Prop :=
+  exists nc1, w_nodes w1 c = Some nc1 /\ w_nodes w' c = Some (set_parent nc1 (PElem self)) /\
+  ((forall i, i <> self -> i <> c -> w_nodes w' i = w_nodes w1 i) \/
+   exists s rest sn name orig,
+     n_content nc1 = CElem s :: rest /\ w_nodes w1 s = Some sn /\ c < s /\
+     w_nodes w' s = Some (set_content sn [CData (DString name)]) /\
+     (exists k, 1 <= k /\ name = suffixed orig k) /\
+     item_name T (set_parent nc1 (PElem self))
+       (mkWorld (upd (w_nodes w1) c (set_parent nc1 (PElem self))) (w_next w1) (w_files w1) (w_models w1))
+     = Val (OK (Some orig), mkWorld (upd (w_nodes w1) c (set_parent nc1 (PElem self))) (w_next w1) (w_files w1) (w_models w1)) /\
+     (forall i, i <> self -> i <> c -> i <> s -> w_nodes w' i = w_nodes w1 i)).
+
+Lemma CopyFrame_of_Ext self m w w' : Ext w w' -> CopyFrame self m w w'.
+Proof.
+  intros (Hn & Hk & Hf & Hm). repeat split; auto. rewrite Hm. apply IdxOnly_refl.
+Qed.
+
+Lemma FiltR_first_child lo v w w' p s c nc x rest :
+  FiltR T lo v w w' p s c -> w_nodes w' c = Some nc -> n_content nc = CElem x :: rest -> c < x.
+Proof.
+  intros HF Hc Hcont. inversion HF as [? ? ? ns nc0 _ Hc0 _ _ _ _ _ _ _ HI]; subst.
+  rewrite Hc in Hc0. injection Hc0 as <-. rewrite Hcont in HI.
+  clear - HI. remember (n_content ns) as l eqn:El. clear El.
+  remember (CElem x :: rest) as l' eqn:El'. revert El'.
+  induction HI; intros El'; try discriminate; auto.
+  injection El' as -> ->. assumption.
+Qed.
+
+Theorem ccsei_spec self other pos m v w r w' :
+  Closed w ->
+  create_copied_sub_element_inner T self other pos m v w = Val (r, w') ->
+  Closed w' /\ CopyFrame self m w w' /\
+  exists ns, w_nodes w self = Some ns /\
+  match r with
+  | ER _ => w_nodes w' self = Some ns
+  | OK c =>
+    w_nodes w' self = Some (set_content ns (insert_at (n_content ns) (N.to_nat pos) (CElem c))) /\
+    exists w1, deep_copy T (fuel_of w) other v w = Val (OK c, w1) /\ CopyRel w1 w' self c
+  end.
+Proof.
+  intros Cw H. unfold create_copied_sub_element_inner in H.
+  apply wbind_inv in H as [(ns & w0 & E & H) | (e & E & _)].
+  2: { apply get_node_inv in E as (? & _ & [=] & _). }
+  apply get_node_inv in E as (ns' & Hself & [= <-] & ->).
+  assert (Hselflt : self < w_next w) by (eapply (proj1 Cw); eauto).
+  apply wbind_inv in H as [(wg & w0 & E & H) | (e & E & _)].
+  2: { apply wget_inv in E as ([=] & _). }
+  apply wget_inv in E as ([= ->] & ->).
+  apply wbind_inv in H as [(anc & w0 & E & H) | (e & E & ->)].
+  2: { assert (w' = w) by (eapply ro_ancestor_is; eauto). subst w'.
+       split; auto. split; [apply CopyFrame_of_Ext, Ext_refl|]. exists ns. auto. }
+  assert (w0 = w) by (eapply ro_ancestor_is; eauto). subst w0. clear E.
+  destruct anc.
+  { apply wfail_inv in H as (-> & ->). split; auto. split; [apply CopyFrame_of_Ext, Ext_refl|]. exists ns. auto. }
+  apply wbind_inv in H as [(c & w1 & E & H) | (e & E & ->)].
+  2: { destruct (deep_copy_frame T _ _ _ _ _ _ Cw E) as (Ex & Cw'). split; auto.
+       split; [apply CopyFrame_of_Ext; auto|]. exists ns. split; auto.
+       destruct Ex as (_ & Hk & _). rewrite Hk; auto. }
+  destruct (deep_copy_spec T _ _ _ _ _ _ Cw E) as (Cw1 & Ex1 & HF).
+  destruct Ex1 as (Hn1 & Hk1 & Hf1 & Hm1).
+  assert (Hclo : w_next w <= c) by (inversion HF; auto).
+  inversion HF as [? ? ? nso nc1 Hso Hc1 _ Hpar1 Hfil1 _ _ _ _ HI]; subst.
+  assert (Hself1 : w_nodes w1 self = Some ns) by (rewrite Hk1; auto).
+  (* path_unchecked of the destination *)
+  apply wbind_inv in H as [(path & w2 & E2 & H) | (e & E2 & ->)].
+  2: { assert (w' = w1) by (eapply ro_path_unchecked; eauto). subst w'.
+       split; auto. split; [apply CopyFrame_of_Ext; repeat split; auto|]. exists ns. auto. }
+  assert (w2 = w1) by (eapply ro_path_unchecked; eauto). subst w2. clear E2.
+  (* set_parent *)
+  apply wbind_inv in H as [(u & w2 & E2 & H) | (e & E2 & _)].
+  2: { apply modify_node_inv in E2 as (? & _ & [=] & _). }
+  apply modify_node_inv in E2 as (nc1' & Hc1' & _ & ->). rewrite Hc1 in Hc1'. injection Hc1' as <-.
+  set (cn := set_parent nc1 (PElem self)) in *.
+  set (w2 := mkWorld (upd (w_nodes w1) c cn) (w_next w1) (w_files w1) (w_models w1)) in *.
+  assert (Cw2 : Closed w2).
+  { apply (Closed_upd w1 c nc1 cn Cw1 Hc1). cbn. intros y Hin. exact (proj2 Cw1 c nc1 y Hc1 Hin). }
+  assert (Hself2 : w_nodes w2 self = Some ns) by (cbn; rewrite upd_neq by lia; auto).
+  assert (Fr2 : CopyFrame self m w w2).
+  { repeat split; cbn; auto; try congruence.
+    - intros i Hi _. rewrite upd_neq by lia. auto.
+    - rewrite Hm1. apply IdxOnly_refl. }
+  apply wbind_inv in H as [(cn' & w3 & E2 & H) | (e & E2 & _)].
+  2: { apply get_node_inv in E2 as (? & _ & [=] & _). }
+  apply get_node_inv in E2 as (cn'' & Hcn & [= <-] & ->).
+  cbn [w_nodes w2] in Hcn. rewrite upd_eq in Hcn. injection Hcn as <-.
+  apply wbind_inv in H as [(ident & w3 & E2 & H) | (e & E2 & ->)].
+  2: { assert (w' = w2) by (eapply ro_is_identifiable; eauto). subst w'.
+       split; auto. split; auto. exists ns. auto. }
+  assert (w3 = w2) by (eapply ro_is_identifiable; eauto). subst w3. clear E2.
+  (* make_unique_item_name *)
+  assert (MU : forall w3 (ru : out unit),
+    (if ident then (do _ <- make_unique_item_name T c m path; wret tt)%W else wret tt) w2 = Val (ru, w3) ->
+    Closed w3 /\ CopyFrame self m w w3 /\ w_nodes w3 self = Some ns /\ w_next w3 = w_next w1 /\
+    CopyRel w1 w3 self c).
+  { intros w3 ru Hmu.
+    assert (Base : Closed w2 /\ CopyFrame self m w w2 /\ w_nodes w2 self = Some ns /\ w_next w2 = w_next w1 /\
+                   CopyRel w1 w2 self c).
+    { repeat (split; auto). exists nc1. split; auto. split; [cbn; apply upd_eq|].
+      left. intros i _ Hic. cbn. apply upd_neq. exact Hic. }
+    destruct ident.
+    2: { apply wret_inv in Hmu as (_ & ->). exact Base. }
+    apply wbind_inv in Hmu as [(nm & w4 & Emu & Hmu) | (e & Emu & _)].
+    - apply wret_inv in Hmu as (_ & ->).
+      apply make_unique_spec in Emu as [(e & [=] & _) | (n & orig & name & Hn & Hin & _ & HN & _ & Hcase)].
+      cbn [w_nodes w2] in Hn. rewrite upd_eq in Hn. injection Hn as <-.
+      destruct Hcase as [(_ & ->) | (s & rest & sn & Hcont & Hsn & HNk & ->)]; [exact Base|].
+      assert (Hcs : c < s).
+      { eapply FiltR_first_child with (nc := nc1); eauto. }
+      assert (Hsn1 : w_nodes w1 s = Some sn).
+      { cbn in Hsn. rewrite upd_neq in Hsn by lia. exact Hsn. }
+      set (w3 := mkWorld (upd (w_nodes w2) s (set_content sn [CData (DString name)])) (w_next w2) (w_files w2) (w_models w2)).
+      assert (Cw3 : Closed w3).
+      { apply (Closed_upd w2 s sn _ Cw2 Hsn). cbn. intros y [[=]|[]]. }
+      split; auto. split.
+      { destruct Fr2 as (F1 & F2 & F3 & F4). repeat split; cbn; auto.
+        intros i Hi Hne. rewrite upd_neq by lia. apply F2; auto. }
+      split. { cbn. rewrite upd_neq by lia. rewrite upd_neq by lia. exact Hself1. }
+      split; [reflexivity|].
+      exists nc1. split; auto. split. { cbn. rewrite upd_neq by lia. apply upd_eq. }
+      right. exists s, rest, sn, name, orig. repeat (split; auto).
+      { cbn. apply upd_eq. }
+      intros i _ Hic His. cbn. rewrite upd_neq by auto. apply upd_neq. exact Hic.
+    - apply make_unique_spec in Emu as [(e' & _ & ->) | (n & orig & name & _ & _ & [=] & _)]. exact Base. }
+  apply wbind_inv in H as [(u3 & w3 & E3 & H) | (e & E3 & ->)].
+  2: { destruct (MU _ _ E3) as (C3 & F3 & S3 & _). split; auto. split; auto. exists ns; auto. }
+  destruct (MU _ _ E3) as (Cw3 & Fr3 & Hself3 & Hn3 & CR3). clear MU E3.
+  apply wbind_inv in H as [(wg & w3' & E3 & H) | (e & E3 & _)].
+  2: { apply wget_inv in E3 as ([=] & _). }
+  apply wget_inv in E3 as ([= ->] & ->).
+  (* the registration walk *)
+  assert (REG : forall (r4 : out unit) w4, register_subtree T (fuel_of w3) m path c w3 = Val (r4, w4) ->
+     Closed w4 /\ CopyFrame self m w w4 /\ w_nodes w4 = w_nodes w3).
+  { intros r4 w4 E4. apply register_subtree_frame in E4 as (Hnodes4 & Hnext4 & Hfiles4 & Hidx4).
+    split. { destruct Cw3 as [A B]. split; rewrite ?Hnodes4, ?Hnext4; auto. }
+    split; auto. destruct Fr3 as (F1 & F2 & F3 & F4). repeat split; try congruence.
+    - intros i Hi Hne. rewrite Hnodes4. auto.
+    - eapply IdxOnly_trans; eauto. }
+  apply wbind_inv in H as [(u4 & w4 & E4 & H) | (e & E4 & ->)].
+  2: { destruct (REG _ _ E4) as (C4 & F4 & N4). split; auto. split; auto. exists ns. split; auto. rewrite N4; auto. }
+  destruct (REG _ _ E4) as (Cw4 & Fr4 & Hnodes4). clear REG E4.
+  (* insertion into the destination's content list *)
+  unfold content_insert in H.
+  apply wbind_inv in H as [(u5 & w5 & E5 & H) | (e & E5 & ->)].
+  2: { exfalso. apply wbind_inv in E5 as [(n5 & w6 & E6 & E5) | (e' & E6 & _)].
+       - apply get_node_inv in E6 as (? & _ & _ & ->).
+         destruct (_ <? pos); [discriminate E5 | apply set_node_inv in E5 as ([=] & _)].
+       - apply get_node_inv in E6 as (? & _ & [=] & _). }
+  apply wret_inv in H as (-> & ->).
+  apply wbind_inv in E5 as [(n5 & w6 & E6 & E5) | (e' & E6 & _)].
+  2: { apply get_node_inv in E6 as (? & _ & [=] & _). }
+  apply get_node_inv in E6 as (n5' & Hn5 & [= <-] & ->).
+  rewrite Hnodes4, Hself3 in Hn5. injection Hn5 as <-.
+  destruct (_ <? pos); [discriminate E5|].
+  apply set_node_inv in E5 as (_ & ->).
+  destruct CR3 as (nc1' & Hc1' & Hc3 & Hrest). rewrite Hc1 in Hc1'. injection Hc1' as <-.
+  assert (Hcself : c <> self) by lia.
+  split.
+  { apply (Closed_upd w4 self ns _ Cw4); [rewrite Hnodes4; auto|].
+    cbn. intros y Hin. apply in_insert_at in Hin as [Hin|[= ->]].
+    - eapply (proj2 Cw4 self ns); eauto. rewrite Hnodes4; auto.
+    - rewrite Hnodes4. eauto. }
+  split.
+  { destruct Fr4 as (F1 & F2 & F3 & F4). repeat split; cbn; auto.
+    intros i Hi Hne. rewrite upd_neq by auto. auto. }
+  exists ns. split; auto. split. { cbn. apply upd_eq. }
+  exists w1. split; auto.
+  exists nc1. split; auto. split. { cbn. rewrite upd_neq by auto. rewrite Hnodes4. exact Hc3. }
+  destruct Hrest as [Hrest | (s & rest & sn & name & orig & Hcont & Hsn & Hcs & Hs3 & HNk & Hin & Hrest)].
+  - left. intros i His Hic. cbn. rewrite upd_neq by auto. rewrite Hnodes4. auto.
+  - right. exists s, rest, sn, name, orig. repeat (split; auto).
+    + cbn. rewrite upd_neq by lia. rewrite Hnodes4. exact Hs3.
+    + intros i His Hic Hisn. cbn. rewrite upd_neq by auto. rewrite Hnodes4. auto.
+Qed.
+
+(* ------------------------------------------------------------------ the public entry points reduce to the inner function *)
+Definition ReducesToInner (h other : id) (w : world) (r : out id) (w' : world) : Prop :=
+  (w' = w /\ exists e, r = ER e) \/
+  exists m v pos, h <> other /\ model_of h w = Val (OK m, w) /\ min_version LATEST h w = Val (OK v, w) /\
+                  create_copied_sub_element_inner T h other pos m v w = Val (r, w').
+
+Lemma raw_copy_inner h other m v w r w' :
+  raw_create_copied_sub_element T h other m v w = Val (r, w') ->
+  (w' = w /\ exists e, r = ER e) \/ exists pos, create_copied_sub_element_inner T h other pos m v w = Val (r, w').
+Proof.
+  unfold raw_create_copied_sub_element. intros H.
+  apply wbind_inv in H as [(n & w1 & E & H) | (e & E & _)].
+  2: { apply get_node_inv in E as (? & _ & [=] & _). }
+  apply get_node_inv in E as (? & _ & [= <-] & ->).
+  apply wbind_inv in H as [(o & w1 & E & H) | (e & E & _)].
+  2: { apply get_node_inv in E as (? & _ & [=] & _). }
+  apply get_node_inv in E as (? & _ & [= <-] & ->).
+  apply wbind_inv in H as [([s e] & w1 & E & H) | (e & E & ->)].
+  - assert (w1 = w) by (eapply ro_calc_range; eauto). subst w1. right. eauto.
+  - left. split; eauto. eapply ro_calc_range; eauto.
+Qed.
+
+Lemma raw_copy_at_inner h other pos m v w r w' :
+  raw_create_copied_sub_element_at T h other pos m v w = Val (r, w') ->
+  (w' = w /\ exists e, r = ER e) \/ create_copied_sub_element_inner T h other pos m v w = Val (r, w').
+Proof.
+  unfold raw_create_copied_sub_element_at. intros H.
+  apply wbind_inv in H as [(n & w1 & E & H) | (e & E & _)].
+  2: { apply get_node_inv in E as (? & _ & [=] & _). }
+  apply get_node_inv in E as (? & _ & [= <-] & ->).
+  apply wbind_inv in H as [(o & w1 & E & H) | (e & E & _)].
+  2: { apply get_node_inv in E as (? & _ & [=] & _). }
+  apply get_node_inv in E as (? & _ & [= <-] & ->).
+  apply wbind_inv in H as [([s e] & w1 & E & H) | (e & E & ->)].
+  - assert (w1 = w) by (eapply ro_calc_range; eauto). subst w1.
+    destruct ((s <=? pos) && (pos <=? e)); auto.
+    apply wfail_inv in H as (-> & ->). left. eauto.
+  - left. split; eauto. eapply ro_calc_range; eauto.
+Qed.
+
+Lemma e_copy_inner h other w r w' :
+  e_create_copied_sub_element T LATEST h other w = Val (r, w') -> ReducesToInner h other w r w'.
+Proof.
+  unfold e_create_copied_sub_element. intros H.
+  destruct (h =? other) eqn:Eh.
+  { apply wfail_inv in H as (-> & ->). left. eauto. }
+  apply N.eqb_neq in Eh.
+  apply wbind_inv in H as [(m & w1 & E & H) | (e & E & ->)].
+  2: { left. split; eauto. eapply ro_model_of; eauto. }
+  assert (w1 = w) by (eapply ro_model_of; eauto). subst w1.
+  apply wbind_inv in H as [(v & w1 & E2 & H) | (e & E2 & ->)].
+  2: { left. split; eauto. eapply ro_min_version; eauto. }
+  assert (w1 = w) by (eapply ro_min_version; eauto). subst w1.
+  apply raw_copy_inner in H as [H | (pos & H)]; [left; auto|].
+  right. exists m, v, pos. auto.
+Qed.
+
+Lemma e_copy_at_inner h other pos w r w' :
+  e_create_copied_sub_element_at T LATEST h other pos w = Val (r, w') -> ReducesToInner h other w r w'.
+Proof.
+  unfold e_create_copied_sub_element_at. intros H.
+  destruct (h =? other) eqn:Eh.
+  { apply wfail_inv in H as (-> & ->). left. eauto. }
+  apply N.eqb_neq in Eh.
+  apply wbind_inv in H as [(m & w1 & E & H) | (e & E & ->)].
+  2: { left. split; eauto. eapply ro_model_of; eauto. }
+  assert (w1 = w) by (eapply ro_model_of; eauto). subst w1.
+  apply wbind_inv in H as [(v & w1 & E2 & H) | (e & E2 & ->)].
+  2: { left. split; eauto. eapply ro_min_version; eauto. }
+  assert (w1 = w) by (eapply ro_min_version; eauto). subst w1.
+  apply raw_copy_at_inner in H as [H | H]; [left; auto|].
+  right. exists m, v, pos. auto.
 Qed.
 
 End Create.
